@@ -101,7 +101,7 @@ PROPS["C18"] = {
     "not_modelled": "what an optimiser may do with __restrict is outside the source-level model; sampled at -O0 and -O2",
 }
 
-ALLCFG = ["asm", "asm+nobmi2", "asm-clang", "portable64", "portable32"]
+ALLCFG = ["asm", "asm+nobmi2", "asm-bmi2", "asm-clang", "portable64", "portable32"]
 NDEBUG = ["asm-ndebug"]
 
 PROPS["C02"] = {
@@ -113,7 +113,7 @@ PROPS["C02"] = {
                         + module_theorems("JediVerif.Properties.C03") + module_theorems("JediVerif.Properties.C03b"),
     "streams": lambda seed, tier: [
         {"cfg": c, "name": g, "lines": no_alias(gen(g, seed, n if tier == "quick" else 6 * n, tier))}
-        for c in cfgs(tier, ["asm", "portable64", "portable32", "asm-ndebug"], ALLCFG + ["asan", "asan-portable", "asm-ndebug", "portable32-ndebug"])
+        for c in cfgs(tier, ["asm", "asm-bmi2", "portable64", "portable32", "asm-ndebug"], ALLCFG + ["asan", "asan-portable", "asm-ndebug", "portable32-ndebug"])
         for (g, n) in (("fp", 10), ("bigint", 4))],
     "hypotheses": [],
     "not_modelled": "'uniform' for random is the first-accepted-draw statement, not a probability statement; Fq::compare orders Montgomery representatives (modelled as coded in Impl/Encode.lean)",
@@ -175,7 +175,7 @@ PROPS["C03"] = {
     "translators": ["consts", "asm2lean", "arm2lean"],
     "lean_targets": ["JediVerif.Properties.C02"] + targets_if_exist("JediVerif.Properties.C03", "JediVerif.Properties.C03b", "JediVerif.Properties.C03c", "JediVerif.Properties.C03d"),
     "theorems": lambda: thms("C03", extra=(("JediVerif.Properties.C03b", "Jedi.C03"), ("JediVerif.Properties.C03c", "Jedi.C03"), ("JediVerif.Properties.C03d", "Jedi.C03"))) + [t for t in module_theorems("JediVerif.Properties.C02", "Jedi.C02") if any(k in t[0] for k in ("bigint_", "fp_", "montgomery", "limbs_unique", "fq_", "fr_"))],
-    "streams": stream_set([("asm", 10), ("bigint", 4), ("fp", 8)], ["asm", "asm+nobmi2", "portable64", "portable32"], ["asm", "asm+nobmi2", "asm-clang", "asm-O0", "portable64", "portable64-O0", "portable32", "portable32-O0", "asan", "asan-portable"], alias=None),
+    "streams": stream_set([("asm", 10), ("bigint", 4), ("fp", 8)], ["asm", "asm+nobmi2", "asm-bmi2", "portable64", "portable32"], ["asm", "asm+nobmi2", "asm-bmi2", "asm-clang", "asm-O0", "portable64", "portable64-O0", "portable32", "portable32-O0", "asan", "asan-portable"], alias=None),
     "filter": None,
     "not_modelled": "AArch64 and ARMv6-M assembly sources cannot be executed here (no emulator) and the ARMv6-M files (divided Thumb syntax) cannot be assembled by the installed llvm-mc: they are covered by instruction-level models only (Impl/A64.lean, Impl/Thumb1.lean running the programs arm2lean regenerates from the .s files; AArch64 decoding cross-checked text-and-encoding against llvm-mc/llvm-objdump, ARMv6-M decoding only checked to be encodable; the call of the C++ fpbase_384_reduce is modelled by its C++ meaning), no theorem; the judge runs both models on every asm add/sub/dbl/mul/sqr/mred line and on every fp_mul/fp_sqr Fq line (fused fpbase_384_multiply/_square) and demands the real back end's exact output; trusted there: the Arm flag/instruction semantics as transcribed and GNU as's divided-syntax conventions; x86-64 assembly: instruction-level model (Impl/X86.lean) of the programs regenerated from the .s files by asm2lean (cross-checked against GNU as); theorems for the add/subtract/multiply2 families (Properties/C03.lean); multiply/square/Montgomery-reduce (both families) and cpu_supports_bmi2_adx have the model but no theorem: they are tied by the judge, which runs the model on every asm op line and demands the real routine's exact output (plus the Nat-level contract)",
 }
